@@ -32,7 +32,8 @@ func TestMain(m *testing.M) {
 			"A case is one set of scripts (or one dataset × command tuple with all its schedules); non-trivial = at least two clients/commands operate on the same key; distinct = FNV-64 of the case.",
 		"the interleaving is whatever the Go scheduler and the kernel produce: a passing run shows only that no violation occurred on the schedules that happened; the saved scripts are the reproducible unit, not the schedule",
 		"in the schedule-controlled leg a released task that stays silent for 15 ms is taken to wait for a lock; interleaving happens at the yield points, not inside a keyspace function; commands with random results are excluded from that leg (their sequential outcome is not unique)",
-		"data-race reports are not a verdict")
+		"data-race reports are not a verdict",
+		"third leg (embedded stress): the same scripts issued by 3–8 goroutines through the embedded API of an in-process server in tight loops, expiry sampler every 300 µs, a churn burst of 6 400 writes over keys that have just expired, and a restart from the append-only log that must reproduce the dataset; the TCP leg also kills and restarts the subprocess in one case in three")
 	common.Main(m, rec)
 }
 
